@@ -19,7 +19,7 @@ def _cases_tables(run):
     cs = core.Cases(ID, "table", HEADER, "Z * list mv * list Z",
                     "fun c => let '(n, ms, ids) := c in let t := table n in "
                     "list_eqb mv_eqb t ms && list_eqb (opt_eqb Z.eqb) (map (fun m => index_of m t 0) ms) (map Some ids)",
-                    show="fun c => let '(n, ms, ids) := c in (zlen (table n), firstn 5 (table n))", shard=1)
+                    show="fun c => let '(n, ms, ids) := c in (zlen (table n), first_diff mv_eqb (table n) ms 0)", shard=1)
     total = nontrivial = 0
     dist = {}
     for n in range(len(encoding.MOVES_BY_SIZE)):
